@@ -27,6 +27,7 @@ class Ctx:
         self.viol_total = 0
         self.case = None
         self.log = []                # symbolic op log of the current case
+        self.extra = {}              # engine-specific payload handed to the driver (cross-process checks)
 
     # -- bookkeeping -----------------------------------------------------
     def begin_case(self, idx):
@@ -76,4 +77,5 @@ class Ctx:
             'samples': self.samples,
             'violations': self.violations,
             'viol_total': self.viol_total,
+            'extra': self.extra,
         }
